@@ -31,6 +31,11 @@ def gen_inputs(rng):
             # definitions: uniquely named per input
             g.structs_before = len(g.structs)
             defs = g.gen_defs()
+            if inputs and r.chance(0.3):
+                # a method may reach the session in an earlier request than the type it belongs to
+                early = [d for d in defs if d.startswith("method ")]
+                defs = [d for d in defs if not d.startswith("method ")]
+                inputs[-1].extend(early)
             items.extend(defs)
         g.budget = 6
         for _ in range(r.randint(0, 3)):
